@@ -10,6 +10,13 @@ Definition wf (r : rat) : Prop := 0 < den r /\ (num r = 0 -> den r = 1).
 Lemma canon_wf : forall r, canon r -> wf r.
 Proof. intros r C. split; [apply C | apply canon_zero; exact C]. Qed.
 
+Lemma mul_lt_mono_both : forall x y p q, 0 <= x -> x < y -> 0 < p -> p <= q -> x * p < y * q.
+Proof. intros. nia. Qed.
+Lemma mul_lt_l : forall x p q, 0 < x -> p < q -> x * p < x * q.
+Proof. intros. nia. Qed.
+Lemma mul_lt_r : forall x y p, 0 < p -> x < y -> x * p < y * p.
+Proof. intros. nia. Qed.
+
 Lemma absCompare_spec : forall a b, wf a -> wf b ->
   (absCompare a b < 0 <-> Z.abs (num a) * den b < Z.abs (num b) * den a) /\
   (absCompare a b = 0 <-> Z.abs (num a) * den b = Z.abs (num b) * den a) /\
@@ -26,28 +33,36 @@ Proof.
   clear Za Zb.
   set (x := Z.abs na) in *. set (y := Z.abs nb) in *. clearbody x y.
   set (cn := cmpabsI na nb) in *. set (cd := cmpabsI da db) in *. set (cp := cmpabsI (na * db) (da * nb)) in *.
-  clearbody cn cd cp.
+  clearbody cn cd cp. replace (da * y) with (y * da) in * by ring.
   destruct (Z.eqb_spec cn (-1)); cbn [andb].
-  { destruct (Z.eqb_spec cd 1); cbn [andb].
-    { assert (x < y) by lia. assert (db < da) by lia. nia. }
+  { assert (Lxy : x < y) by lia.
+    destruct (Z.eqb_spec cd 1); cbn [andb].
+    { assert (L := mul_lt_mono_both x y db da Xa Lxy Hb ltac:(lia)). lia. }
     destruct (Z.eqb_spec cn 1); [lia|]. cbn [andb].
     destruct (Z.eqb_spec cn 0); [lia|].
-    destruct (Z.eqb_spec cd 0). { assert (da = db) by lia. subst db. assert (x < y) by lia. nia. }
-    replace (y * da) with (da * y) by ring. lia. }
+    destruct (Z.eqb_spec cd 0); [|lia].
+    assert (da = db) by lia. subst db. assert (L := mul_lt_r x y da Ha Lxy). lia. }
   destruct (Z.eqb_spec cn 1); cbn [andb].
-  { destruct (Z.eqb_spec cd (-1)).
-    { assert (y < x) by lia. assert (da < db) by lia. nia. }
+  { assert (Lyx : y < x) by lia.
+    destruct (Z.eqb_spec cd (-1)).
+    { assert (L := mul_lt_mono_both y x da db Xb Lyx Ha ltac:(lia)). lia. }
     destruct (Z.eqb_spec cn 0); [lia|].
-    destruct (Z.eqb_spec cd 0). { assert (da = db) by lia. subst db. assert (y < x) by lia. nia. }
-    replace (y * da) with (da * y) by ring. lia. }
+    destruct (Z.eqb_spec cd 0); [|lia].
+    assert (da = db) by lia. subst db. assert (L := mul_lt_r y x da Ha Lyx). lia. }
   destruct (Z.eqb_spec cn 0).
   { assert (E : x = y) by lia. subst y.
     assert (C : x = 0 \/ 0 < x) by lia. destruct C as [C | C].
-    - assert (da = 1) by lia. assert (db = 1) by lia. lia.
-    - assert (T : (- cd < 0 <-> db < da) /\ (- cd = 0 <-> da = db) /\ (0 < - cd <-> da < db)) by lia. nia. }
-  destruct (Z.eqb_spec cd 0).
-  { assert (da = db) by lia. subst db. nia. }
-  replace (y * da) with (da * y) by ring. lia.
+    - assert (da = 1) by lia. assert (db = 1) by lia. subst. lia.
+    - assert (C3 : da < db \/ da = db \/ db < da) by lia. destruct C3 as [C3 | [C3 | C3]].
+      + assert (L := mul_lt_l x da db C C3). lia.
+      + subst db. lia.
+      + assert (L := mul_lt_l x db da C C3). lia. }
+  destruct (Z.eqb_spec cd 0); [|lia].
+  assert (da = db) by lia. subst db.
+  assert (C3 : x < y \/ x = y \/ y < x) by lia. destruct C3 as [C3 | [C3 | C3]].
+  - assert (L := mul_lt_r x y da Ha C3). lia.
+  - subst y. lia.
+  - assert (L := mul_lt_r y x da Ha C3). lia.
 Qed.
 
 Lemma rcompare_spec : forall a b, wf a -> wf b ->
